@@ -11,6 +11,7 @@ from mc.engine.seams import Canon, public_snapshot
 import logging
 
 import ECAgent.Core as Core
+from ECAgent.Collectors import AgentCollector
 
 POS = {'first': 2, 'mid': 0, 'last': -2, 'none': None}
 TCS = [0, 1, 2]
@@ -79,6 +80,13 @@ class Harness:
                         raise Halt('stop the run')
 
         kw = {} if self.end is None else {'end': self.end}
+        class LogCollector(AgentCollector):
+            """An agent collector is a system like any other: once the model is complete it does not collect."""
+
+            def collect(self):
+                log.append(self.id)
+                super().collect()
+
         w.objs = {}
         w.reg = []            # (priority, seq, key)
         w.seq = 0
@@ -92,8 +100,11 @@ class Harness:
         for key, prio in RECS:
             w.objs[key] = Rec(key, m, priority=prio, **kw)
         w.objs['new'] = Rec('new', m, priority=3, **kw)
+        ag = Core.Agent('ag', m)
+        m.environment.add_agent(ag)
+        w.objs['ac'] = LogCollector(m, lambda a: 1, id='ac', **kw)        # default collector priority (-1)
         # registration: the completer first, so that for equal priority it precedes the recorder ('mid')
-        for key in (['cp'] if 'cp' in w.objs else []) + [k for k, _ in RECS] + (['cp2'] if self.second else []):
+        for key in (['cp'] if 'cp' in w.objs else []) + [k for k, _ in RECS] + (['cp2'] if self.second else []) + ['ac']:
             self._register(w, key)
         w.running = True
         w.t = 0
@@ -108,7 +119,7 @@ class Harness:
     def ops(self, w):
         ops = [['complete']]
         if not w.running or w.t < self.horizon:      # while running the clock is bounded by the horizon
-            ops += [['execute', 1], ['execute', 2], ['execute', 3], ['xs'], ['xs_throw']]
+            ops += [['execute', 1], ['execute', 2], ['execute', 3], ['xs'], ['xs_throw'], ['xs_old']]
         names = {k for _, _, k in w.reg}
         for k in ('r0', 'rm', 'new'):
             if k in names:
@@ -144,8 +155,13 @@ class Harness:
             self._status(w, op)
             return
         if kind == 'complete':
+            n0 = len(w.log)
+            recs = len(w.objs['ac'].records)
             m.complete()
             w.running = False
+            if len(w.log) != n0 or len(w.objs['ac'].records) != recs:
+                raise Violation('marking the model complete made a system run / a collector collect',
+                                expected=[], observed=w.log[n0:])
             self._status(w, op)
             return
         n = op[1] if kind == 'execute' else 1
@@ -158,6 +174,8 @@ class Harness:
                     m.execute(n)
                 elif kind == 'xs':
                     m.systems.execute_systems()
+                elif kind == 'xs_old':
+                    m.systems.executeSystems()      # the deprecated spelling is still an entry point
                 else:
                     m.systems.execute_systems(throw_error=True)
             except Core.ModelCompleteError as e:
@@ -194,6 +212,8 @@ class Harness:
                 m.execute(n)
             elif kind == 'xs':
                 m.systems.execute_systems()
+            elif kind == 'xs_old':
+                m.systems.executeSystems()
             else:
                 m.systems.execute_systems(throw_error=True)   # behaves as a step while running
         except Halt:
@@ -253,17 +273,19 @@ def configs(tier):
                 yield (pos, tc, 6, True)
 
 
+def explore_cfg(ctx, cfg):
+    h = Harness(*cfg)
+    name = f'{cfg[0]}@t{cfg[1]}' + ('+second' if cfg[3] else '') + ('+quietlogger' if len(cfg) > 4 and cfg[4] else '') + \
+        (f'+{cfg[5]}' if len(cfg) > 5 else '')
+    r = hbfs.explore(ctx, h, name, max_depth=40, procs=1)
+    ctx.leg(name, **r)
+    if not r.get('fixpoint') and not r.get('aborted'):
+        ctx.cap(f'{name}: fixpoint not reached')
+
+
 def run(ctx):
-    for cfg in configs(ctx.tier):
-        h = Harness(*cfg)
-        name = f'{cfg[0]}@t{cfg[1]}' + ('+second' if cfg[3] else '') + ('+quietlogger' if len(cfg) > 4 and cfg[4] else '') + \
-            (f'+{cfg[5]}' if len(cfg) > 5 else '')
-        r = hbfs.explore(ctx, h, name, max_depth=40, procs=ctx.procs)
-        ctx.leg(name, **r)
-        if not r.get('fixpoint'):
-            ctx.cap(f'{name}: fixpoint not reached')
-        if ctx.violations:
-            return
+    from mc.engine import par
+    par.pmap(ctx, explore_cfg, list(configs(ctx.tier)), procs=ctx.procs)
 
 
 def replay(case):
